@@ -244,7 +244,9 @@ def main():
         sched_outs += sched_lib.stub_builder(ck.rng, 5000 if ck.thorough else 500)
         sched_outs += sched_lib.stub_tusage(ck.rng, 2000 if ck.thorough else 200)
     sc_stats = sched_lib.stage(ck, outs + sched_outs)
-    se_stats = serial_lib.stage(ck, outs + sched_outs)
+    # generated tensors / subgraph descriptions through the real copy functions and the real serialiser (function level)
+    serial_stub = serial_lib.stub(ck.rng, 20000 if ck.thorough else 2000) if ck.replay_arg is None else []
+    se_stats = serial_lib.stage(ck, outs + sched_outs + serial_stub)
     ck.finish({
         **lr_stats,
         **ip_stub_stats,
